@@ -52,16 +52,19 @@ func canonOf(m proto.Message) []byte {
 }
 
 func engineAnyu(rep *Report) {
-	subs := subjectsForShard()
+	subs := allSubjects()
 	n := perType(12, 600)
 	si, _ := shard()
 	emptyTypes := new(protoregistry.Types)
-	for _, s := range subs {
+	for ti, s := range subs {
 		tn := string(s.FullName)
 		rep.Types = append(rep.Types, tn)
 		d := s.Zero.ProtoReflect().Descriptor()
 		for i := 0; i < n; i++ {
 			i := i
+			if !mineCase(ti, i) {
+				continue
+			}
 			guardCase(rep, "C16", "anyu", tn, i, func() {
 				seed := caseSeed(*flagSeed, tn, i, "anyu")
 				o := defaultGen()
